@@ -344,8 +344,8 @@ class Interp:
         n = 0
         while self.truth(self.ev(st.test, fr)):
             n += 1
-            if n > 64:
-                raise Undecided("loop unwinding bound (64) exceeded without an invariant")
+            if n > getattr(self, "max_unwind", 64):
+                raise Undecided("loop unwinding bound exceeded without an invariant")
             try:
                 self.block(st.body, fr)
             except BreakEx:
@@ -1078,6 +1078,8 @@ class Interp:
                 return fn(a, b)
             except Exception as ex:
                 raise PyRaise(type(ex))
+        if type(a).__name__ == "SByteArray" and isinstance(op, ast.Add) and isinstance(b, (SBytes, bytes)):
+            return type(a)(tuple(a.segs) + tuple(as_bytes(b)))
         if isinstance(a, SBytes) or isinstance(b, SBytes):
             if isinstance(op, ast.Add):
                 return SBytes(as_bytes(a) + as_bytes(b))
